@@ -39,12 +39,12 @@ ASSUMPTIONS = ["'unloading has completed' = the awaitable returned by overlay.un
                "the endpoint itself stays open (other overlays may use it); only the overlay's own sockets must be closed"]
 REACH = ["unload_with_pending_tasks", "unload_with_open_exit_transports", "unload_with_outstanding_caches", "late_datagrams_delivered",
          "register_after_unload_refused", "tm_duplicate_name_refused", "tm_replace_ordered", "tm_slow_cleanup", "scenario:tunnel", "scenario:dht",
-         "scenario:attestation", "scenario:identity", "scenario:multi", "scenario:service", "scenario:dhtcrawl", "scenario:bcast", "scenario:exitrace", "create_sent_to_overlay_being_unloaded",
+         "scenario:attestation", "scenario:identity", "scenario:multi", "scenario:service", "scenario:dhtcrawl", "scenario:bcast", "scenario:exitrace", "scenario:attest_slow", "create_sent_to_overlay_being_unloaded",
          "script_operation_abandoned_after_unload"]
 
-SCN = ["community", "bcast", "discovery", "dht", "dhtdiscovery", "tunnel", "hidden", "pex", "attestation", "identity", "multi", "dhtcrawl",
-       "service"]
-STEPS = {"community": 5, "bcast": 7, "exitrace": 3, "discovery": 3, "dht": 5, "dhtdiscovery": 7, "tunnel": 5, "hidden": 5, "pex": 5, "attestation": 3,
+SCN = ["community", "bcast", "discovery", "dht", "dhtdiscovery", "tunnel", "hidden", "pex", "attestation", "attest_slow", "identity", "multi",
+       "dhtcrawl", "service"]
+STEPS = {"community": 5, "bcast": 7, "exitrace": 3, "discovery": 3, "dht": 5, "dhtdiscovery": 7, "tunnel": 5, "hidden": 5, "pex": 5, "attestation": 3, "attest_slow": 3,
          "identity": 3, "multi": 8, "dhtcrawl": 3, "service": 6}
 
 
@@ -65,6 +65,18 @@ def cases(tier: str, base_seed: int):  # noqa: ANN201
     for off in (0.02, 0.1, 0.5, 1.5, 4.0, 6.0):
         n += 1
         yield {"scenario": "dhtcrawl", "seed": base_seed + n, "knobs": {}, "node": 0, "step": 1, "offset": off}
+    # the service with a walk interval long enough for its ticker to pause between two strategies of one tick; the unload lands
+    # inside a tick
+    for k, off in enumerate((0.7, 3.1, 5.3, 8.9)):
+        n += 1
+        yield {"scenario": "service", "seed": base_seed + n, "knobs": {}, "node": (0, 2)[k % 2], "step": k % 3, "offset": off,
+               "walk_interval": 12.0}
+    # several asynchronous handlers of one message type and one sender suspended at once (the application answers late)
+    for off, rep in ((0.0, 2), (0.5, 3), (1.9, 2)):
+        n += 1
+        yield {"scenario": "attest_slow", "seed": base_seed + n, "knobs": {}, "node": 0, "step": 1, "offset": off, "repeats": rep}
+    n += 1
+    yield {"scenario": "attest_slow", "seed": base_seed + n, "knobs": {"dup": 0.5}, "node": 0, "step": 1, "offset": 0.2, "repeats": 1}
     for scn in [SCN[-1], *SCN[:-1]]:          # the slow full-IPv8 cases first, so that they overlap with everything else
         for step in range(STEPS[scn]):
             for node in ((0, 2) if tier == "quick" else (0, 1, 2, 3)):
